@@ -120,6 +120,17 @@ fn wrap_case(rng: &mut Rng, rep: &mut Report) {
     if !(max > min) {
         return;
     }
+    // angles exactly at the ends of the interval and whole interval lengths
+    // away from them (bit-exact in f32): the upper end is *excluded*
+    let x = match rng.below(12) {
+        0 => max,
+        1 => min,
+        2 => max + (max - min),
+        3 => min - (max - min),
+        4 => crate::next_down(max),
+        5 => crate::next_up(max),
+        _ => x,
+    };
     let mut hs = Hasher::new();
     hs.f32(x).f32(min).f32(max);
     rep.case(hs.get(), !(x >= min && x < max));
@@ -132,6 +143,22 @@ fn wrap_case(rng: &mut Rng, rep: &mut Report) {
         }
     };
     rep.count("wraps");
+    // "closed at the upper end only by rounding": returning max itself is
+    // legitimate only if the exactly computed wrapped value is within
+    // rounding of max, not when it is (near) min
+    let len64 = max as f64 - min as f64;
+    let exact = min as f64 + (x as f64 - min as f64).rem_euclid(len64);
+    if w == max && exact - (min as f64) < 0.25 * len64 {
+        rep.violation(
+            "angle.wrap_returns_excluded_upper_end",
+            format!("rads({x}).wrap({min}, {max}) = {w}, the excluded upper end, although the exact wrapped value is {exact} (no rounding involved)"),
+            cj(),
+        );
+        return;
+    }
+    if x == max || x == min {
+        rep.count("wraps_of_an_interval_end");
+    }
     if !(w >= min && w <= max) {
         rep.violation("angle.wrap_outside_interval", format!("rads({x}).wrap({min}, {max}) = {w} lies outside the interval"), cj());
         return;
@@ -303,6 +330,7 @@ pub fn run(cfg: &Cfg, rep: &mut Report) {
     rep.floor("unit_conversions", 500_000);
     rep.floor("trig_evaluations", 500_000);
     rep.floor("wraps", 1_000_000);
+    rep.floor("wraps_of_an_interval_end", 100_000);
     rep.floor("wraps_over_at_least_one_revolution", 200_000);
     rep.floor("polar_roundtrips", 500_000);
     rep.floor("spherical_roundtrips", 500_000);
